@@ -208,6 +208,11 @@ theorem step_refines (s s' : St) (e : Ev) (hI : RInv s) (h : step s e = some s')
     split at h
     · simp at h; subst h; exact ⟨rfl, by simp⟩
     · simp at h
+  | boff k b =>
+    simp only [step] at h
+    split at h
+    · simp at h; subst h; exact ⟨rfl, by simp⟩
+    · simp at h
   | probe j c =>
     simp only [step] at h
     split at h
